@@ -36,7 +36,9 @@ def run(workdir, module, cfg_text, workers=1, env=None, timeout=3600, extra_args
     with open(os.path.join(workdir, cfg_name), "w") as fh:
         fh.write(cfg_text)
     meta = tempfile.mkdtemp(prefix="meta-", dir=workdir)
-    cmd = ["java", "-XX:+UseParallelGC", "-Xmx" + heap, "-Djava.io.tmpdir=" + workdir, "-cp", JAR, "tlc2.TLC",
+    # many JVMs run side by side: a single-worker run uses the serial collector, the others a few GC threads
+    gc = ["-XX:+UseSerialGC"] if int(workers) <= 1 else ["-XX:+UseParallelGC", "-XX:ParallelGCThreads=%d" % min(4, int(workers))]
+    cmd = ["java"] + gc + ["-Xmx" + heap, "-Djava.io.tmpdir=" + workdir, "-cp", JAR, "tlc2.TLC",
            "-workers", str(workers), "-metadir", meta, "-noGenerateSpecTE", "-config", cfg_name]
     if simulate:
         cmd += ["-simulate", simulate]
